@@ -226,6 +226,60 @@ func checkC15(c *run.Ctx) {
 		}
 	})
 
+	// A declared type whose fields do not decode (a scalar where a list or mapping belongs) next to a well-typed key
+	// of another family: the step is kept as an unknown step - the other family's key never takes over.
+	c.Phase("ill-typed", func() {
+		type bad struct {
+			typ, key string
+			val      *doc.Node
+		}
+		var bads []bad
+		for _, t := range []string{"command", "script"} {
+			bads = append(bads, bad{t, "env", doc.I(5)}, bad{t, "matrix", doc.I(5)}, bad{t, "env", doc.L(doc.S("a"))}, bad{t, "plugins", doc.I(7)}, bad{t, "signature", doc.S("x")})
+		}
+		bads = append(bads, bad{"group", "steps", doc.S("nope")}, bad{"group", "steps", doc.I(5)}, bad{"group", "steps", doc.M(doc.P("a", doc.S("b")))})
+		foreign := []string{"wait", "waiter", "block", "input", "manual", "trigger", "group", "command", "commands"}
+		n := 0
+		for _, b := range bads {
+			for _, fk := range foreign {
+				for _, format := range []string{"json", "yaml"} {
+					n++
+					pairs := []doc.Pair{doc.P("type", doc.S(b.typ)), doc.P(b.key, b.val), doc.P(fk, c15KeyValue(fk))}
+					if n%2 == 0 {
+						pairs[0], pairs[2] = pairs[2], pairs[0]
+					}
+					d := doc.M(doc.P("steps", doc.L(&doc.Node{Kind: doc.KMap, Map: pairs})))
+					text := string(doc.ToJSON(d))
+					if format == "yaml" {
+						text, _ = doc.ToYAML(d, doc.YAMLOpts{})
+					}
+					id := fmt.Sprintf("illtyped/%s/%s/%s/%s", b.typ, b.key, fk, format)
+					var p *pipeline.Pipeline
+					var perr error
+					if pi := run.Guard(func() { p, perr = pipeline.Parse(strings.NewReader(text)) }); pi != nil {
+						c.Violation(id, map[string]any{"what": "Parse panicked: " + pi.Value, "document": text, "stack": pi.Stack})
+						continue
+					}
+					c.Eval(1)
+					if perr != nil && !warning.Is(perr) {
+						c.Count("ill_typed_hard_errors", 1) // refusing the document is not a wrong kind
+						continue
+					}
+					if len(p.Steps) != 1 {
+						c.Violation(id, map[string]any{"what": fmt.Sprintf("expected one step, got %d", len(p.Steps)), "document": text})
+						continue
+					}
+					want, _ := c15Table(map[string]bool{b.key: true, fk: true}, &b.typ)
+					if got := stepKind(p.Steps[0]); got != "unknown" && got != want {
+						c.Violation(id, map[string]any{"what": fmt.Sprintf("type %q with an ill-typed %q and a key of another family (%q): parsed as %s - neither the declared kind nor an unknown step", b.typ, b.key, fk, got), "document": text, "warning": fmt.Sprint(perr)})
+						continue
+					}
+					c.Count("ill_typed_rows", 1)
+					c.Feature("illtyped", b.typ, b.key, fk)
+				}
+			}
+		}
+	})
 	// Scalar steps.
 	words := []string{"wait", "waiter", "block", "input", "manual"}
 	nonWords := []string{"Wait", "WAIT", "wait ", " wait", "command", "group", "trigger", "", "waits", "blocks", "~x", "null ", "true!", "wait\n", "w", "input step"}
